@@ -225,16 +225,17 @@ def main():
     out.append('(* functions: index = position in this list *)\nDefinition fn_names : list string :=\n  [%s]%%string.\n\n' %
                ';\n   '.join('"%s.%s"' % (f.module, f.qual) for f in allf))
     out.append('Definition n_functions : nat := %d.\n' % len(allf))
-    out.append('Definition entry_points : list nat := [%s].\n\n' % '; '.join(str(e) for e in entries))
-    out.append('(* call graph (caller, callee): name-based over-approximation *)\nDefinition call_edges : list (nat * nat) :=\n  [%s].\n\n' %
+    out.append('Local Open Scope N_scope.\n')
+    out.append('Definition entry_points : list N := [%s].\n\n' % '; '.join(str(e) for e in entries))
+    out.append('(* call graph (caller, callee): name-based over-approximation *)\nDefinition call_edges : list (N * N) :=\n  [%s].\n\n' %
                '; '.join('(%d, %d)' % e for e in edges))
     ws = [(i, ln, why) for i, f in enumerate(allf) for (ln, why) in f.writes]
     out.append('(* syntactic write sites to persistent objects: (function, source line, what) *)\n'
-               'Definition write_sites : list (nat * nat * string) :=\n  [%s]%%string.\n\n' %
-               ';\n   '.join('(%d, %d, "%s")' % (i, ln, why.replace('"', "'")) for (i, ln, why) in ws))
+               'Definition write_sites : list (N * N * string) :=\n  [%s].\n\n' %
+               ';\n   '.join('(%d, %d, "%s"%%string)' % (i, ln, why.replace('"', "'")) for (i, ln, why) in ws))
     cs = [(i, ln, what) for i, f in enumerate(allf) for (ln, what) in f.clock]
-    out.append('(* wall-clock / random-number call sites *)\nDefinition clock_sites : list (nat * nat * string) :=\n  [%s]%%string.\n' %
-               ';\n   '.join('(%d, %d, "%s")' % (i, ln, what) for (i, ln, what) in cs))
+    out.append('(* wall-clock / random-number call sites *)\nDefinition clock_sites : list (N * N * string) :=\n  [%s].\n' %
+               ';\n   '.join('(%d, %d, "%s"%%string)' % (i, ln, what) for (i, ln, what) in cs))
     write_if_changed(GEN + '/Effects.v', ''.join(out))
 
 
